@@ -38,6 +38,12 @@ def pairs(tier):
     P.append(("benign-settings", call("12 March 2015 10:30", ["en"], CACHE_SIZE_LIMIT=1), call("5 March 2014", ["en"], CACHE_SIZE_LIMIT=1, PREFER_DATES_FROM="past")))
     # differing in language / date order, SKIP_TOKENS, NORMALIZE
     P.append(("date-order", call("02/03/2015", ["fr"]), call("02/03/2015", ["en"])))
+    # no settings argument at all: both calls run on the process-wide default Settings object (no re-initialisation on entry), complete absolute
+    # dates so that no reference time is needed; a locale with a day-first order next to English, in both roles
+    nos = lambda s_, l_: {"fn": "parse", "s": s_, "kw": {"languages": l_}}  # noqa
+    P.append(("date-order", nos("02/03/2015", ["fr"]), nos("02/03/2015", ["en"])))
+    P.append(("date-order", nos("10/11/2012 10:30", ["en"]), nos("03.04.2021", ["de"])))
+    P.append(("date-order", nos("02/03/2015", ["fr"]), nos("02/03/2015", ["tl"])))      # Tagalog: the one language without an order of its own
     P.append(("date-order", call("02/03/2015", ["fr"]), call("04/05/2016", ["fr"])))
     P.append(("skip-tokens", call("02 de 03 2015", ["en"], SKIP_TOKENS=["de"]), call("02 de 03 2015", ["en"], SKIP_TOKENS=["t"])))
     if tier != "quick":
@@ -110,7 +116,8 @@ def run(ctx):
         for c, r in zip(uniq, rr):
             refs[json.dumps(c, sort_keys=True)] = (r.get("divergent") or [{}])[0].get("ra")
     known = load_known("C20")
-    known_sites = {e["key"]["site"] for e in known if "site" in e.get("key", {})}
+    known_sites = {e["key"]["site"] for e in known if "site" in e.get("key", {}) and "victim" not in e["key"]}
+    no_order_victim = any(e.get("key") == {"site": "Settings.DATE_ORDER", "victim": "locale without date_order"} for e in known)
     viol = []
     kh = collections.Counter()
     points = 0
@@ -123,8 +130,14 @@ def run(ctx):
         per_pair.append({"class": cls, "role": role, "lines": r["lines"], "divergent_points": len(r["divergent"])})
         for dv in r["divergent"]:
             sites = dv["changed"] or ["(no shared variable changed)"]
-            if cls in ("same-config", "benign-settings") or not set(sites) <= known_sites:
-                viol.append({"why": "a single preemption changes a result", "pair_class": cls, "role": role, "A": X, "B": Y, "preempt_at_line_event": dv["k"], "where": dv["where"],
+            # the recorded findings all describe the *preempted* call continuing on state the other call changed; a call that ran to
+            # completion without interruption and still returned something else is not one of them
+            b_right = dv["rb"] == r["ref"][1]
+            if not b_right and set(sites) <= {"Settings.DATE_ORDER", "(no shared variable changed)"} and no_order_victim and (Y.get("kw", {}).get("languages") == ["tl"]):
+                kh["Settings.DATE_ORDER read by a locale without an order of its own (uninterrupted call wrong)"] += 1
+                continue
+            if cls in ("same-config", "benign-settings") or not set(sites) <= known_sites or not b_right:
+                viol.append({"why": "a single preemption changes a result" + ("" if b_right else " of the call that ran uninterrupted"), "pair_class": cls, "role": role, "A": X, "B": Y, "preempt_at_line_event": dv["k"], "where": dv["where"],
                              "sequential": r["ref"], "interleaved": [dv["ra"], dv["rb"]], "shared_variables_changed_by_B": dv["changed"], "process": "warm"})
             else:
                 for s in sites:
@@ -153,7 +166,7 @@ def run(ctx):
             sites = sorted(set(dv["changed"]) | pair_sites.get(pk, set())) or ["(no shared variable changed)"]
             if str(dv["where"]).endswith("utils/__init__.py:constructor"):
                 sites = ["Settings registry constructor"]
-            if (cls in ("same-config", "benign-settings") and sites != ["Settings registry constructor"]) or not set(sites) <= known_sites:
+            if (cls in ("same-config", "benign-settings") and sites != ["Settings registry constructor"]) or not set(sites) <= known_sites or dv["rb"] != rb0:
                 viol.append({"why": "a single preemption changes a result", "pair_class": cls, "role": role, "A": X, "B": Y, "preempt_at_line_event": k, "where": dv["where"],
                              "sequential": [ra0, rb0], "interleaved": [dv["ra"], dv["rb"]], "shared_variables_changed_by_B": dv["changed"], "process": "cold"})
             else:
